@@ -1,6 +1,7 @@
 package variable
 
 import (
+	ghttp "net/http"
 	"net/textproto"
 	"strings"
 
@@ -115,8 +116,7 @@ func setRequestHeaderValue(r *http.Request, name string, val value.Value) {
 	}
 
 	if strings.EqualFold(name, "cookie") {
-		c := http.CreateCookie(key, val.String())
-		r.AddCookie(c)
+		setCookie(r, http.CreateCookie(key, val.String()))
 		return
 	}
 
@@ -182,6 +182,29 @@ func unsetRequestHeaderValue(r *http.Request, name string) {
 	}
 	r.Header.Set(name, t)
 	r.Unassign(name)
+}
+
+// setCookie stores the cookie in the Cookie header of the request. A cookie of that name which is
+// already there is replaced (a second one would be shadowed by the first on reading), and the cookie
+// is appended to the first Cookie line without touching further Cookie lines
+// (net/http's AddCookie rewrites the header to a single line and drops the others).
+func setCookie(r *http.Request, c *ghttp.Cookie) {
+	removeCookieByName(r, c.Name)
+
+	// let net/http render (and sanitise) "name=value"
+	scratch := &ghttp.Request{Header: ghttp.Header{}}
+	scratch.AddCookie(c)
+	s := scratch.Header.Get("Cookie")
+
+	lines := r.Header["Cookie"]
+	switch {
+	case len(lines) == 0:
+		r.Header.Set("Cookie", s)
+	case textproto.TrimString(lines[0]) == "":
+		lines[0] = s
+	default:
+		lines[0] += "; " + s
+	}
 }
 
 // removeCookieByName removes a part of Cookie headers that name is matched.
